@@ -69,6 +69,8 @@ func (z *Interpreter) SetExternalLibs(libs []*r.Library) *Interpreter {
 ///// load functions //////
 
 func (z *Interpreter) LoadScript(source []rune) *Interpreter {
+	verifGate(z, "load-enter")
+	defer verifGate(z, "loaded")
 	// set moduleCodeFinder
 	z.moduleCodeFinder = func(isMain bool, info r.LibNameInfo) ([]rune, error) {
 		// suppose the sourceCode is the mainModule ONLY
@@ -87,6 +89,8 @@ func (z *Interpreter) LoadScript(source []rune) *Interpreter {
 }
 
 func (z *Interpreter) LoadFile(file string) *Interpreter {
+	verifGate(z, "load-enter")
+	defer verifGate(z, "loaded")
 	// set moduleCodeFinder
 	z.moduleCodeFinder = func(isMain bool, info r.LibNameInfo) ([]rune, error) {
 		// get dir & fileName -
@@ -131,12 +135,14 @@ func (z *Interpreter) LoadFile(file string) *Interpreter {
 }
 
 func (z *Interpreter) Execute(varInputs r.ElementMap) (r.Element, error) {
+	verifGate(z, "execute-enter")
 	// #1. get the main source
 	if z.moduleCodeFinder == nil {
 		return nil, fmt.Errorf("code script/file not loaded")
 	}
 
 	finder := z.moduleCodeFinder
+	verifGate(z, "source-read")
 	// #2. load main module
 	source, err := finder(true, r.LibNameInfo{
 		OriginalName: "",
